@@ -93,6 +93,28 @@ void ident(sink& out, std::vector<LT> const& ls, std::vector<RT> const& rs)
     }
 }
 
+// cnl::quotient(a, b): the true quotient truncated toward zero at the result resolution (C02)
+template<class LT, class RT>
+void quot(sink& out, std::vector<LT> const& ls, std::vector<RT> const& rs)
+{
+    if constexpr (requires(LT a, RT b) { cnl::quotient(a, b); }) {
+        using Res = decltype(cnl::quotient(std::declval<LT>(), std::declval<RT>()));
+        int id = add_inst(out, ev("Inst").str("kind", "ScQuot").str("op", "quotient").raw("lt", desc<LT>()).raw("rt", desc<RT>())
+                                       .raw("res_t", desc<Res>()));
+        for (auto const& a : ls) {
+            for (auto const& b : rs) {
+                if (raw_is_zero(b)) {
+                    continue;
+                }
+                Res res{};
+                auto o = guarded([&] { res = cnl::quotient(a, b); });
+                out.put(ev("ScQuot").num("i", id).raw("l", raw(a)).raw("r", raw(b)).raw("res", o == "ok" ? raw(res) : "[0]")
+                                .str("out", o).s);
+            }
+        }
+    }
+}
+
 template<class Src, class Dst>
 void conv(sink& out, std::vector<Src> const& ss)
 {
@@ -155,6 +177,12 @@ std::vector<F> float_values(std::vector<Dst> const& ds)
     return v;
 }
 
+// quotient() is exercised for radix-2 scaled_integers (its result scale is a power of two)
+template<class T>
+inline constexpr bool QUOTIENT_OK = false;
+template<class Rep, int E>
+inline constexpr bool QUOTIENT_OK<cnl::scaled_integer<Rep, cnl::power<E, 2>>> = sizeof(innermost_t<Rep>) <= 8;      // 128-bit reps would need 256 digits
+
 template<class LT, class RT>
 void pair_all(sink& out, int salt)
 {
@@ -169,6 +197,9 @@ void pair_all(sink& out, int salt)
     bin<modulo_op>(out, "mod", ls, rs);
     cmp(out, ls, rs);
     ident(out, ls, rs);
+    if constexpr (QUOTIENT_OK<LT> && QUOTIENT_OK<RT>) {
+        quot(out, ls, rs);
+    }
     auto lw = number_values<LT>(thorough() ? 100 : 12, static_cast<std::uint64_t>(salt) * 10 + 5, thorough() ? 2 : 1);
     auto rw = number_values<RT>(thorough() ? 100 : 12, static_cast<std::uint64_t>(salt) * 10 + 6, thorough() ? 2 : 1);
     if constexpr (!std::is_integral_v<LT>) {
